@@ -64,6 +64,10 @@ class C06(SCheck):
             kernel["fiemap"] = "emulate"
             if r.random() < 0.3:
                 kernel["fiemap_split"] = 4096
+        if r.random() < 0.4:
+            # simulated time may jump to the next timer deadline while other threads are still runnable (a stalled thread): the
+            # outcome must not depend on how long anything takes
+            kernel["time_jump_p"] = r.choice([0.02, 0.1, 0.5])
         return {"setup": ops, "steps": [{"inv": inv}], "kernel": kernel, "max_events": 400000}
 
     def gen_plans(self, r, case, k):
